@@ -435,7 +435,17 @@ def emit_fn(b, u, m, d, items, idx, info, used_fns, probe_fn):
         if it.get("parent") is not None and items[it["parent"]].get("trait"):
             vis = ""
         b.add(vis + sig, ("repo", m.file, line_of(src, it["sig_start"])))
-        b.gen(" { unimplemented!() }\n", "R8")
+        dummy = ""
+        if it.get("parent") is not None and not it.get("has_self") and re.search(r"^\s*\w+\s*=>", spec_lines_to_text(fs.spec)):
+            par = items[it["parent"]]
+            if par["kind"] == "impl":
+                gens = ", ".join(x for x in (par.get("impl_generics", ""), it.get("fn_generics", "")) if x)
+                sty = par.get("self_ty_text", "Self")
+                inputs = re.sub(r"\bSelf\b", sty, it.get("inputs", ""))
+                outp = re.sub(r"\bSelf\b", sty, it.get("output", ""))
+                dummy = " #[verifier::external] fn %s%s(%s)%s { unimplemented!() } " % (
+                    it["name"], ("<" + gens + ">") if gens else "", inputs, (" -> " + outp) if outp else "")
+        b.gen(" {" + dummy + " unimplemented!() }\n", "R8")
         info["stubs"].append(full)
         b.rule_counts["R8"] = b.rule_counts.get("R8", 0) + 1
         return
